@@ -551,21 +551,37 @@ Proof.
   split; [vm_compute; reflexivity|]. split; vm_compute; reflexivity.
 Qed.
 
-(** C19_consumers_env_exact_refuted.  Without the restriction to plain patterns (1) is false of the
-    faithful model: the env list is joined with "," and read back by a csv reader, so ONE env pattern
-    "a,b" (a table called a,b) becomes the TWO patterns a and b, and the table a,b is not excluded;
-    the flag route can say it (--exclude '"a,b"').  Reproduced on the real CLI by the consumers stage
-    (finding C19-env-exclude-comma-resplit). *)
-Theorem C19_consumers_env_exact_refuted :
+(** C19_consumers_env_exact (was C19_consumers_env_exact_refuted; fix C19-env-exclude-csv: setSchemaEnvFlags writes the env list
+    as ONE CSV record -- cmdapi.joinCSV -- instead of joining it with ",").  For every command that accepts --exclude and
+    EVERY env list [ps] (patterns may hold commas, double quotes, leading spaces; only CR / LF, which the pattern splitter
+    rejects anyway, are outside) other than the empty list and the list of one empty pattern: the value of flags.exclude on
+    the env route is [ps] itself -- every pattern whole, in order.  (The two excepted lists set nothing: flags.exclude = [].) *)
+Theorem C19_consumers_env_exact :
+  forall (c : command) (ps : list bytes),
+    has_exclude_flag c = true -> no_crlf ps -> ps <> [] -> ps <> [[]] ->
+    effective (mkInv c [] (Some ps)) = EOk ps.
+Proof. exact effective_env_exact. Qed.
+Print Assumptions C19_consumers_env_exact.
+
+(** non-vacuity = the former witness: the env pattern "a,b" stays ONE pattern; so do a pattern holding a double quote and one with a leading space *)
+Example C19_consumers_env_exact_nonvacuous :
+  effective (mkInv CApply [] (Some [[97;44;98]%N])) = EOk [[97;44;98]%N]
+  /\ effective (mkInv CDiff [] (Some [[116;51]; [97;34;98]; [32;120]]%N)) = EOk [[116;51]; [97;34;98]; [32;120]]%N
+  /\ effective (mkInv CApply [] (Some [[]])) = EOk [].
+Proof. split; [vm_compute; reflexivity|]. split; vm_compute; reflexivity. Qed.
+
+(** the behaviour BEFORE the fix, kept for the record: the list joined with "," and read back by the csv reader of the
+    flag -- ONE env pattern "a,b" became the TWO patterns a and b *)
+Theorem C19_consumers_env_exact_before_fix :
   exists ps : list bytes,
-    effective (mkInv CApply [] (Some ps)) = EOk [[97]; [98]]%N
-    /\ effective (mkInv CApply [] (Some ps)) <> EOk ps
-    /\ effective (mkInv CApply [[34;97;44;98;34]%N] None) = EOk ps.
+    effective_before_fix (mkInv CApply [] (Some ps)) = EOk [[97]; [98]]%N
+    /\ effective_before_fix (mkInv CApply [] (Some ps)) <> EOk ps
+    /\ effective (mkInv CApply [] (Some ps)) = EOk ps.
 Proof.
   exists [[97;44;98]%N]. split; [vm_compute; reflexivity|]. split; [vm_compute; discriminate|].
   vm_compute; reflexivity.
 Qed.
-Print Assumptions C19_consumers_env_exact_refuted.
+Print Assumptions C19_consumers_env_exact_before_fix.
 
 (** C19_consumers_flag_hides_env: an [--exclude] on the command line (any values, plain or not) makes the
     env list irrelevant -- it is replaced, not merged; without --env the list is the flags' alone; a
